@@ -120,8 +120,147 @@ pub fn mount_twins(a: &Path, b: &Path) -> TwinMounts {
     TwinMounts(v)
 }
 
+static SSD_MOUNT: std::sync::OnceLock<Option<PathBuf>> = std::sync::OnceLock::new();
+
+/// A block device of the other kind: a 32 MiB ext4 image that lives on tmpfs (/dev/shm), loop-mounted
+/// below /var/tmp. Its loop device reports rotational=0, so fclones classifies it as SSD, while the
+/// root disk of the sandbox (and loop devices backed by it) report rotational=1. None when loop
+/// devices or mounting are not available.
+pub fn ssd_mount() -> Option<PathBuf> {
+    SSD_MOUNT
+        .get_or_init(|| {
+            let base = PathBuf::from(format!("/var/tmp/fcvw/p{}", std::process::id()));
+            std::fs::create_dir_all(&base).ok()?;
+            let img_dir = PathBuf::from(format!("/dev/shm/fcvw/p{}", std::process::id()));
+            std::fs::create_dir_all(&img_dir).ok()?;
+            let img = img_dir.join("ssd.img");
+            let mnt = base.join("ssdmnt");
+            std::fs::create_dir_all(&mnt).ok()?;
+            let f = std::fs::File::create(&img).ok()?;
+            f.set_len(32 * 1024 * 1024).ok()?;
+            drop(f);
+            let ok = |c: &mut Command| c.stdout(Stdio::null()).stderr(Stdio::null()).status().map(|s| s.success()).unwrap_or(false);
+            if !ok(Command::new("mkfs.ext4").arg("-q").arg("-F").arg(&img)) {
+                return None;
+            }
+            if !ok(Command::new("mount").arg("-o").arg("loop").arg(&img).arg(&mnt)) {
+                return None;
+            }
+            Some(mnt)
+        })
+        .clone()
+}
+
+/// Runs `r` under the interposer and blocks it at its k-th relevant call of class `cls` ('R' any
+/// read-side call, 'O' open for read, 'M' mutating call) on files below `root`; `at_pause` runs while the
+/// child is blocked. Returns the output and whether the pause point was reached (the child runs to
+/// completion when it issues fewer than k such calls).
+pub fn run_paused(r: &Run, base: &Path, root: &Path, cls: char, k: usize, at_pause: &mut dyn FnMut()) -> (Out, bool) {
+    use std::os::unix::ffi::OsStrExt;
+    use std::os::unix::fs::OpenOptionsExt;
+    use std::os::unix::process::ExitStatusExt;
+    let fifo_out = base.join("pause.out");
+    let fifo_in = base.join("pause.in");
+    let _ = std::fs::remove_file(&fifo_out);
+    let _ = std::fs::remove_file(&fifo_in);
+    let mk = |p: &Path| {
+        let c = std::ffi::CString::new(p.as_os_str().as_bytes()).unwrap();
+        unsafe { libc::mkfifo(c.as_ptr(), 0o600) == 0 }
+    };
+    let start = Instant::now();
+    let spawn_failed = |msg: String| Out { code: None, signal: None, stdout: vec![], stderr: msg.into_bytes(), timed_out: true, deadlocked: false, wall: start.elapsed() };
+    if !mk(&fifo_out) || !mk(&fifo_in) {
+        return (spawn_failed("mkfifo failed".into()), false);
+    }
+    let mut cmd = Command::new(&r.program);
+    cmd.args(&r.args).current_dir(&r.cwd).env_clear();
+    for (key, v) in &r.env {
+        cmd.env(key, v);
+    }
+    cmd.env("LD_PRELOAD", SHIM)
+        .env("FCV_ROOT", root)
+        .env("FCV_PAUSE", format!("{}:{}:{}:{}", cls, k, fifo_out.display(), fifo_in.display()))
+        .stdin(Stdio::null())
+        .stdout(Stdio::piped())
+        .stderr(Stdio::piped());
+    let mut child = match cmd.spawn() {
+        Ok(ch) => ch,
+        Err(e) => return (spawn_failed(e.to_string()), false),
+    };
+    let mut so = child.stdout.take().unwrap();
+    let mut se = child.stderr.take().unwrap();
+    let t_out = std::thread::spawn(move || {
+        let mut v = vec![];
+        let _ = so.read_to_end(&mut v);
+        v
+    });
+    let t_err = std::thread::spawn(move || {
+        let mut v = vec![];
+        let _ = se.read_to_end(&mut v);
+        v
+    });
+    let mut out_r = std::fs::OpenOptions::new().read(true).write(true).custom_flags(libc::O_NONBLOCK).open(&fifo_out).ok();
+    let mut paused = false;
+    let mut status = None;
+    let mut timed_out = false;
+    loop {
+        if let Some(f) = out_r.as_mut() {
+            let mut b = [0u8; 1];
+            if let Ok(1) = f.read(&mut b) {
+                paused = true;
+                break;
+            }
+        }
+        match child.try_wait() {
+            Ok(Some(st)) => {
+                status = Some(st);
+                break;
+            }
+            Ok(None) => {}
+            Err(_) => break,
+        }
+        if start.elapsed() > Duration::from_secs(60) {
+            timed_out = true;
+            let _ = child.kill();
+            break;
+        }
+        std::thread::sleep(Duration::from_millis(1));
+    }
+    if paused {
+        at_pause();
+        if let Ok(mut w) = std::fs::OpenOptions::new().read(true).write(true).open(&fifo_in) {
+            let _ = w.write_all(b"g");
+            let deadline = Instant::now() + Duration::from_secs(60);
+            loop {
+                match child.try_wait() {
+                    Ok(Some(st)) => {
+                        status = Some(st);
+                        break;
+                    }
+                    Ok(None) if Instant::now() > deadline => {
+                        timed_out = true;
+                        let _ = child.kill();
+                        break;
+                    }
+                    Ok(None) => std::thread::sleep(Duration::from_millis(1)),
+                    Err(_) => break,
+                }
+            }
+        }
+    }
+    if status.is_none() {
+        status = child.wait().ok();
+    }
+    let stdout = t_out.join().unwrap_or_default();
+    let stderr = t_err.join().unwrap_or_default();
+    (Out { code: status.and_then(|s| s.code()), signal: status.and_then(|s| s.signal()), stdout, stderr, timed_out, deadlocked: false, wall: start.elapsed() }, paused)
+}
+
 pub fn cleanup_process_scratch() {
     if let Some(Some(m)) = SECOND_MOUNT.get() {
+        let _ = Command::new("umount").arg("-l").arg(m).stdout(Stdio::null()).stderr(Stdio::null()).status();
+    }
+    if let Some(Some(m)) = SSD_MOUNT.get() {
         let _ = Command::new("umount").arg("-l").arg(m).stdout(Stdio::null()).stderr(Stdio::null()).status();
     }
     for top in ["/dev/shm/fcvw", "/var/tmp/fcvw"] {
@@ -165,6 +304,7 @@ impl Out {
     }
 }
 
+#[derive(Clone)]
 pub struct Run {
     pub program: OsString,
     pub args: Vec<OsString>,
